@@ -1,5 +1,7 @@
 import PelModel.Clean
+import PelModel.Main
 import PelProofs.Clean
+import PelProofs.Main
 /-
   C12 — `--clean` never deletes a PEL whose decoded output was not completely written.
   Statements quantify over every number of writes `n`, every fault plan and every prefix of the trace
@@ -153,5 +155,73 @@ example : cleanJsonTrace .doc 2 true (fun k => k == 3) =
     [(Ev.openOut, true), (Ev.write, true), (Ev.write, true), (Ev.closeOut, false)] := by decide
 example : inputRemoved (runSteps ([Ev.openOut] ++ List.replicate 2 Ev.write ++ [Ev.removeIn, Ev.closeOut]) 0 (fun k => k == 4)) = true := by
   decide
+
+/-! ### the `-f` branch of `main()`: `printed = parseAndPrintPELFile(...)`; `if args.clean and printed: os.remove(args.file)` -/
+
+/-- ★ in the `-f` branch `main` hands a path to `os.remove` only if `--clean` was given AND `parseAndPrintPELFile` returned `True`; the path
+    is then the `-f` value itself; and no other branch of `main` calls `os.remove` directly -/
+theorem main_file_clean_needs_printed (fs : FsView) (a : Args) (printed : Bool) :
+    (∀ p clean, (dispatch fs a).1 = .fileMode p clean →
+      a.file = some p ∧ clean = a.clean ∧
+      (dispatch fs a).1.afterPrint printed = (if a.clean && printed then some p else none)) ∧
+    (∀ q, (dispatch fs a).1.afterPrint printed = some q →
+      a.file = some q ∧ a.clean = true ∧ printed = true ∧ (dispatch fs a).1 = .fileMode q true) := by
+  have key : ∀ p clean, (dispatch fs a).1 = .fileMode p clean → a.file = some p ∧ clean = a.clean := by
+    intro p clean h
+    have hc := dispatch_chain fs a
+    rw [h] at hc
+    generalize (dispatch fs a).2.sel.lookup = lk at hc
+    cases hc
+    rename_i hf
+    exact ⟨(tv_some hf).1, rfl⟩
+  constructor
+  · intro p clean h
+    obtain ⟨h1, h2⟩ := key p clean h
+    refine ⟨h1, h2, ?_⟩
+    rw [h, h2]; rfl
+  · intro q hq
+    cases hact : (dispatch fs a).1 with
+    | fileMode p clean =>
+      obtain ⟨h1, h2⟩ := key p clean hact
+      rw [hact] at hq
+      simp only [Action.afterPrint] at hq
+      split at hq
+      · rename_i hcp
+        simp only [Option.some.injEq] at hq
+        subst hq
+        simp only [Bool.and_eq_true] at hcp
+        obtain ⟨hc, hp⟩ := hcp
+        subst hc
+        exact ⟨h1, h2.symm, hp, rfl⟩
+      · simp at hq
+    | _ => rw [hact] at hq; simp [Action.afterPrint] at hq
+
+/-- ★ tie to the event model of this property: with `printed` = what `parseAndPrintPELFile` returns (`printedOf`: a document was
+    decoded, printed and stdout flushed without fault), `main` attempts the removal exactly when the trace `cleanFileTrace` contains a
+    `removeIn` event — so `file_remove_after_complete` / `file_input_kept` speak about what `main` does -/
+theorem main_file_remove_iff_trace (p : Text) (clean : Bool) (d : DecodeResult) (fault : Nat → Bool) :
+    (Action.fileMode p clean).afterPrint (printedOf d fault) = some p ↔
+      ∃ ok, (Ev.removeIn, ok) ∈ cleanFileTrace d clean fault := by
+  cases d with
+  | doc =>
+    cases clean with
+    | false =>
+      simp only [Action.afterPrint, Bool.false_and, Bool.false_eq_true, if_false, reduceCtorEq, false_iff, not_exists]
+      intro ok hm
+      exact runSteps_not_mem _ _ _ _ _ (by simp [filePlan]) hm
+    | true =>
+      simp only [Action.afterPrint, printedOf, cleanFileTrace, filePlan, Bool.true_and, if_true, List.cons_append, List.nil_append, runSteps]
+      cases h0 : fault 0 <;> cases h1 : fault 1 <;> cases h2 : fault 2 <;> simp
+  | filtered => simp [Action.afterPrint, printedOf, cleanFileTrace]
+  | failed => simp [Action.afterPrint, printedOf, cleanFileTrace]
+
+/-! Non-vacuity: `-f /pels/a --clean`: removed iff printed; without `--clean` never; a flush fault means `printed = False`. -/
+example : (dispatch { isDir := fun _ => false, isFile := fun _ => false } { file := some (s "/pels/a"), clean := true }).1.afterPrint true
+    = some (s "/pels/a") := by decide
+example : (dispatch { isDir := fun _ => false, isFile := fun _ => false } { file := some (s "/pels/a"), clean := true }).1.afterPrint false
+    = none := by decide
+example : (dispatch { isDir := fun _ => false, isFile := fun _ => false } { file := some (s "/pels/a") }).1.afterPrint true = none := by decide
+example : printedOf .doc (fun k => k == 1) = false ∧ printedOf .filtered (fun _ => false) = false ∧
+    printedOf .doc (fun k => k == 2) = true := by decide
 
 end Pel.C12
